@@ -109,6 +109,8 @@ PerClass(c, o) ==
 \* view must be exactly f, i.e. changed exactly where the abstract operation changed it
 ObsAgrees(p, prevf, c, f, w, hid, fz, o) ==
   /\ Chk("C09", "observation-panicked", ObsOk(o))
+  /\ Chk(p, "observation-panicked", ObsOk(o))
+  /\ Chk("C04", "observation-panicked", ObsOk(o))
   /\ ObsOk(o) =>
        /\ Chk(p, "frame-status", \A h \in Huges(c) : ObsFr(o, prevf, h) = f[h])
        /\ Chk("C17", "frame-status", c.kind \notin {"zone", "nvm"} \/ \A h \in Huges(c) : ObsFr(o, prevf, h) = f[h])
@@ -149,6 +151,7 @@ Reset ==
          hid == InitHidden(c)
      IN /\ cfg' = c
         /\ Chk("C09", "construction-failed", e.ierr = "")
+        /\ Chk("C06", "construction-failed", e.ierr = "")
         /\ IF e.ierr = ""
            THEN /\ fr' = f /\ whole' = w /\ hidden' = hid
                 /\ ObsAgrees("C06", f, c, f, w, hid, {}, e.obs)
